@@ -1,11 +1,11 @@
 SPECIFICATION Spec
 CONSTANTS
   Mode = "selector"
-  MaxNodes = 3
-  MaxSteps = 2
+  MaxNodes = 2
+  MaxSteps = 1
   MaxDecls = 0
-  Small = TRUE
-  EmitOneIn = 20
+  Small = FALSE
+  EmitOneIn = 10
   Emit = TRUE
 INVARIANTS Inv_Selector Inv_Cascade Inv_Hide Inv_Emit
 CHECK_DEADLOCK FALSE
